@@ -179,6 +179,15 @@ def check_call(fq, args, kwargs=None, contract=None, fn=None):
     c = contract or CONTRACTS[fq]
     fn = fn or resolve(fq)
     kwargs = kwargs or {}
+    # dynamic dispatch: what a caller runs on this receiver is the method its CLASS resolves the name to.  When a subclass
+    # (now) overrides the contracted method, the contract is evaluated on the override: the base method alone is not
+    # what `a == b` or `obj.method()` executes any more
+    if args and "." in fq and not isinstance(args[0], type) and inspect.isfunction(fn):
+        owner = fq.rsplit(".", 2)[-2]
+        dyn = getattr(type(args[0]), fn.__name__, None)
+        if dyn is not None and inspect.isfunction(dyn) and dyn is not fn and \
+                any(k.__name__ == owner and k.__dict__.get(fn.__name__) is fn for k in type(args[0]).__mro__):
+            fn = dyn
     try:
         ba = inspect.signature(fn).bind(*args, **kwargs)
     except TypeError as e:
